@@ -768,6 +768,7 @@ func TestC15(t *testing.T) {
 	}
 	runtime.GOMAXPROCS(procs0)
 	f9(r)
+	readerClosesEmitter(r)
 
 	if !r.Replaying() && r.Violations() == 0 {
 		q := func(quick, thorough int) int {
@@ -1154,6 +1155,99 @@ func f9(r *run.R) {
 			r.Inconclusive(caseID, "dedicated F9 case stopped making progress without the F9 goroutine shape")
 		}
 	}
+}
+
+// readerClosesEmitter: "closing emitters concurrently with emits never deadlocks" - also when the closing
+// goroutine is the one that READS the subscription an Emit of the same type is stalled on (an event loop
+// that closes one of its own emitters between two reads). Per attempt: two emitters and one subscription
+// (buffer 0 or 1) of one type; a goroutine emits 5 events on the first emitter; the reader takes one event
+// (so the emitting goroutine is now entering or inside its next, stalling, Emit), closes the SECOND
+// emitter, and reads the rest. No progress for 4 s with a goroutine inside (*emitter).Close is the deadlock.
+func readerClosesEmitter(r *run.R) {
+	type rce struct{ V int }
+	for _, buf := range []int{0, 1} {
+		caseID := fmt.Sprintf("reader-closes-emitter/buf%d", buf)
+		if !r.Want(caseID) {
+			continue
+		}
+		bus := eventbus.NewBus()
+		var stop atomic.Bool
+		var progress atomic.Int64
+		attempts := r.Pick(3000, 30000)
+		done := make(chan struct{})
+		go func() {
+			defer close(done)
+			defer func() {
+				if p := recover(); p != nil {
+					stop.Store(true)
+					r.Violation(panicSig("reader-closes-emitter", fmt.Sprint(p)), caseID, fmt.Sprintf("bus call panicked: %v", p), map[string]any{"panic": fmt.Sprint(p)})
+				}
+			}()
+			for i := 0; i < attempts && !stop.Load(); i++ {
+				em1, err1 := bus.Emitter(new(rce))
+				em2, err2 := bus.Emitter(new(rce))
+				sub, err3 := bus.Subscribe(new(rce), eventbus.BufSize(buf))
+				if err1 != nil || err2 != nil || err3 != nil {
+					continue
+				}
+				emDone := make(chan struct{})
+				go func() {
+					defer close(emDone)
+					for k := 0; k < 5; k++ {
+						em1.Emit(rce{k})
+					}
+				}()
+				<-sub.Out()
+				if i%2 == 0 {
+					runtime.Gosched()
+				}
+				em2.Close()
+				for k := 1; k < 5; k++ {
+					<-sub.Out()
+				}
+				<-emDone
+				em1.Close()
+				sub.Close()
+				progress.Add(1)
+			}
+		}()
+		last, still := int64(-1), 0
+		var dump string
+	poll:
+		for {
+			select {
+			case <-done:
+				break poll
+			case <-time.After(250 * time.Millisecond):
+				p := progress.Load()
+				if p != last {
+					last, still = p, 0
+					continue
+				}
+				still++
+				if still == 16 {
+					dump = run.Stacks()
+					break poll
+				}
+			}
+		}
+		stop.Store(true)
+		r.Eval(1)
+		r.Count("reader_closes_emitter_attempts", int(progress.Load()))
+		if dump != "" {
+			eb := eventbusGoroutines(dump, 40)
+			if strings.Contains(eb, "(*emitter).Close(") {
+				r.Violation("deadlock:emitter-close-by-the-reader-while-an-emit-is-stalled", caseID,
+					fmt.Sprintf("after %d attempts Emitter.Close, called by the goroutine that reads the subscription, never returned while an Emit of the same type was waiting for that reader", progress.Load()),
+					map[string]any{"buffer": buf, "attempts_before_deadlock": progress.Load(), "goroutines": eventbusGoroutines(dump, 12)})
+			} else {
+				r.Inconclusive(caseID, "stopped making progress without a goroutine inside (*emitter).Close")
+			}
+			continue
+		}
+		r.Nontrivial(caseID)
+	}
+	r.Require("reader_closes_emitter_attempts", 1000)
 }
 
 // ---- oracle self-check: the checker must flag hand-made bad histories and accept the good one ----
